@@ -58,6 +58,26 @@ fn call(b: Builder, m: &mut Model, slot: usize, c: usize) -> Builder {
     // RSDP that is the prefix of the ACPI 2.0 one, both with valid checksums)
     let related = (8000..8004).contains(&c);
     let relv = c.saturating_sub(8000);
+    // seeds 9000..9005: texts with NUL bytes in them (the constructors store them as they are), and blobs that are
+    // protocol packets (a DHCP ACK padded to the BOOTP minimum of 300 bytes, the same ending exactly at its END option)
+    let nul = (9000..9006).contains(&c);
+    let text = if nul { ["console=ttyS0\0root=/dev/sda1", "GRUB 2.12\0\0", "\0", "a\0", "\0\0x", "a\0b\0"][c - 9000].to_string() } else { text };
+    if nul {
+        let mut pkt = vec![0u8; 236];
+        pkt[0] = 2; // BOOTREPLY
+        pkt[1] = 1;
+        pkt[2] = 6;
+        pkt[4..8].copy_from_slice(&[0x39, 0x03, 0xF3, 0x26]);
+        pkt[16..20].copy_from_slice(&[10, 0, 2, 15]);
+        pkt[20..24].copy_from_slice(&[10, 0, 2, 2]);
+        pkt[28..34].copy_from_slice(&[0x52, 0x54, 0x00, 0x12, 0x34, 0x56]);
+        pkt.extend_from_slice(&[99, 130, 83, 99]);
+        pkt.extend_from_slice(&[53, 1, 5, 54, 4, 10, 0, 2, 2, 51, 4, 0, 1, 0x51, 0x80, 1, 4, 255, 255, 255, 0, 3, 4, 10, 0, 2, 2, 6, 4, 10, 0, 2, 3, 255]);
+        if (c - 9000) % 2 == 0 {
+            pkt.resize(300, 0);
+        }
+        blob = pkt;
+    }
     let text = if related { ["same text", "x", "", "same text"][relv].to_string() } else { text };
     const END: [u8; 8] = [0, 0, 0, 0, 8, 0, 0, 0];
     if (4000..4006).contains(&c) {
@@ -253,6 +273,39 @@ fn judge(ctx: &mut Ctx, what: &dyn Fn() -> String, m: &Model, built: &[u8], addr
     // transcript: the tags up to their sizes (padding bytes of sized tags are uninitialised memory)
     for i in &items {
         ctx.tx.bytes(&built[8 + i.off..8 + i.off + i.size]);
+    }
+    // the library's own walk of the built structure (tags() and module_tags() in every state) sees exactly these tags
+    {
+        let base = built.as_ptr() as usize;
+        let r = ctx.call("tags() of the built structure", || {
+            let b = unsafe { BootInformation::load(built.as_ptr() as *const BootInformationHeader) }.unwrap();
+            let offs: Vec<usize> = b.tags().map(|t| t as *const _ as *const u8 as usize - base).collect();
+            let cnt = b.tags().count();
+            let last = b.tags().last().map(|t| t as *const _ as *const u8 as usize - base);
+            let mut it = b.tags();
+            let _ = it.next();
+            let cnt1 = it.count();
+            let mut d = b.tags();
+            while d.next().is_some() {}
+            let drained = (d.clone().last().is_none(), d.count());
+            let mods: Vec<usize> = b.module_tags().map(|t| t as *const _ as *const u8 as usize - base).collect();
+            (offs, cnt, last, cnt1, drained, mods, b.module_tags().count())
+        });
+        let want: Vec<usize> = items.iter().map(|i| 8 + i.off).collect();
+        let wmods: Vec<usize> = items.iter().filter(|i| i.typ == 3).map(|i| 8 + i.off).collect();
+        let n = want.len();
+        match r {
+            Out::Val((offs, cnt, last, cnt1, drained, mods, mcnt)) => {
+                if offs != want || cnt != n || last != want.last().copied() || cnt1 != n.saturating_sub(1) || drained != (true, 0) || mods != wmods || mcnt != wmods.len() {
+                    ctx.violation("c06/library-walk", || format!("{}: tags() of the built structure yields {} tags (count() {}, last() {:?}, count() after one next() {}, drained (last() is None, count()) {:?}), module_tags() {} (count() {}); the built bytes hold {} tags, {} of them modules", what(), offs.len(), cnt, last, cnt1, drained, mods.len(), mcnt, n, wmods.len()));
+                    return;
+                }
+            }
+            Out::Panic => {
+                ctx.violation("c06/library-walk", || format!("{}: tags() / module_tags() of the built structure panicked", what()));
+                return;
+            }
+        }
     }
     // end tag: exactly one, the final 8 bytes
     let ends = items.iter().filter(|i| i.typ == 0).count();
@@ -468,6 +521,26 @@ fn run(ctx: &mut Ctx) {
                     run_program(ctx, &prog, &|| format!("calls {:?}", prog));
                 });
             }
+        }
+    }
+    // texts with NUL bytes in them and protocol packets as blobs: stored as supplied
+    ctx.bound("nul_texts_and_packets", "command line, loader name and module with the texts {\"console=ttyS0<NUL>root=/dev/sda1\", \"GRUB 2.12<NUL><NUL>\", \"<NUL>\", \"a<NUL>\", \"<NUL><NUL>x\", \"a<NUL>b<NUL>\"}; network, SMBIOS, custom and ELF-sections tags holding a DHCP ACK (BOOTP header, magic cookie, options, END) padded with zeros to 300 bytes and ending exactly at END: each alone, between two other tags, and all text kinds together");
+    {
+        let mut progs: Vec<Vec<(usize, usize)>> = vec![];
+        for v in 9000..9006usize {
+            for slot in [0usize, 1, 2, 16, 12, 21, 8] {
+                progs.push(vec![(slot, v)]);
+                progs.push(vec![(3, 1), (slot, v), (20, 1)]);
+            }
+            progs.push(vec![(0, v), (1, v), (2, v), (2, v), (16, v)]);
+        }
+        for prog in progs {
+            let describe = || J::obj().set("part", "nul-texts-and-packets").set("calls", J::Arr(prog.iter().map(|(s, c)| J::from(format!("{}#{}", SLOT_NAMES[*s], c))).collect()));
+            ctx.leaf(describe, |ctx| {
+                ctx.state_direct();
+                ctx.nontrivial();
+                run_program(ctx, &prog, &|| format!("calls {:?}", prog));
+            });
         }
     }
     // related contents: two tags that say the same thing are still two tags
